@@ -1,5 +1,6 @@
 import SSDriver.C13
 import SSDriver.C10
+import SSDriver.C20
 import SSDriver.C08
 import SSDriver.C09
 import SSDriver.C04
@@ -18,6 +19,7 @@ def dispatch (j : Json) : Except String String := do
   let p ← (← j.getObjVal? "p").getStr?
   match p with
   | "C13" => SS.Drv.C13.handle j
+  | "C20" => SS.Drv.C20.handle j
   | "C08" => SS.Drv.C08.handle j
   | "C09" => SS.Drv.C09.handle j
   | "C04" => SS.Drv.C04.handle j
